@@ -26,9 +26,24 @@ func propC15(c *Ctx, r *Report) {
 		sc := &Scenario{Params: map[string]AVal{"type:uint32": hconst(h)}, MaxDepth: 1}
 		t := newSCCP(c, sc).analyse(nb, nil)
 		r.Scen++
+		// which address string reaches NewFAAddress: by value (the initial values of the two address variables), so that
+		// selecting it through a helper or a local makes no difference
+		inits := c.globalInits()
+		nameOf := map[string]string{}
+		for _, gn := range []string{"GlobalOldBurnAddress", "GlobalBurnAddress", "GlobalMintAddress"} {
+			if g, ok := c.pkg("node").Members[gn].(*ssa.Global); ok {
+				if v, ok := inits[g]; ok {
+					nameOf[v.String()] = "node." + gn
+				}
+			}
+		}
 		addr := map[string]bool{}
 		for _, lc := range t.CallsTo("NewFAAddress") {
-			addr[valuePath(lc.Instr.Common().Args[0])] = true
+			if n, ok := nameOf[lc.Args[0].String()]; ok {
+				addr[n] = true
+			} else {
+				addr[valuePath(lc.Instr.Common().Args[0])] = true
+			}
 		}
 		wantAddr := "node.GlobalOldBurnAddress"
 		wantHist := true
